@@ -873,6 +873,14 @@ func (e *SpecEnv) evalCall(x *ECall) SV {
 				a, b := e.eval(x.Args[0]), e.eval(x.Args[1])
 				fc.eng.declareUF(fc, "bcat", []string{"Int", "Int"}, "Int")
 				return SV{t: app("bcat", a.t, b.t), typ: mathInt}
+			case "kvstr":
+				// T-KV: kvstr(s): value id of the byte string held by the Go string s (ext_kvstr.go)
+				v := e.eval(x.Args[0])
+				if fc.tc.sortOfSV(v) != "Str" {
+					e.fail("kvstr of %s", v.typ)
+				}
+				fc.eng.declareUF(fc, "kvstr", []string{"Str"}, "Int")
+				return SV{t: app("kvstr", v.t), typ: mathInt}
 			case "kvkey", "kvval":
 				// T-KV: kvkey(s) / kvval(s): abstract identity of the byte string held by s (slice or array), used as key /
 				// value of a key-value store. Uninterpreted function of (block, offset, length) exactly like bigbytes, i.e. any
